@@ -234,6 +234,30 @@ fn fit_enet(d: &Data, h: &Hp, q: &Array2<f64>) -> Result<FitOut, String> {
         })
     }) { Ok(r) => r, Err(p) => Err(format!("PANIC: {}", p)) }
 }
+/// the same estimator instantiated at f32; data and hyper-parameters are f32 values (exactly widened to f64 for Coq)
+fn fit_enet32(d: &Data, h: &Hp, q: &Array2<f64>) -> Result<FitOut, String> {
+    let (x, y, h2, q2) = (d.xa().mapv(|v| v as f32), d.ya1().mapv(|v| v as f32), h.clone(), q.mapv(|v| v as f32));
+    match guarded(move || {
+        let ds = Dataset::new(x, y);
+        let mut p = if h2.l1r == 1.0 && h2.how % 2 == 0 { ElasticNet::<f32>::lasso() }
+            else if h2.l1r == 0.0 && h2.how % 2 == 0 { ElasticNet::<f32>::ridge() }
+            else { ElasticNet::<f32>::params() };
+        if !(h2.l1r == DEF_L1R) && !((h2.l1r == 1.0 || h2.l1r == 0.0) && h2.how % 2 == 0) { p = p.l1_ratio(h2.l1r as f32); }
+        if !h2.icpt || h2.how % 3 == 1 { p = p.with_intercept(h2.icpt); }
+        if h2.maxit != DEF_MAXIT { p = p.max_iterations(h2.maxit); }
+        if h2.pen != DEF_PEN { p = p.penalty(h2.pen as f32); }
+        if h2.tol != DEF_TOL { p = p.tolerance(h2.tol as f32); }
+        let m = p.fit(&ds).map_err(|e| format!("{}", e))?;
+        let pred = m.predict(&q2);
+        Ok(FitOut {
+            w: m.hyperplane().iter().map(|v| vec![*v as f64]).collect(),
+            b: vec![m.intercept() as f64],
+            gap: m.duality_gap() as f64,
+            steps: m.n_steps(),
+            pred: pred.iter().map(|v| vec![*v as f64]).collect(),
+        })
+    }) { Ok(r) => r, Err(p) => Err(format!("PANIC: {}", p)) }
+}
 fn fit_mtl(d: &Data, h: &Hp, q: &Array2<f64>) -> Result<FitOut, String> {
     let (x, y, h2, q2) = (d.xa(), d.ya2(), h.clone(), q.clone());
     match guarded(move || {
@@ -263,15 +287,28 @@ fn arr2(rows: &[Vec<f64>], p: usize) -> Array2<f64> {
     Array2::from_shape_vec((rows.len(), p), rows.iter().flatten().cloned().collect()).unwrap()
 }
 
+/// JSON rendering of floats that python's json module can read back (NaN / Infinity literals)
+fn jnum(x: f64) -> String {
+    if x.is_nan() { "NaN".into() } else if x.is_infinite() { if x > 0.0 { "Infinity".into() } else { "-Infinity".into() } } else { format!("{:e}", x) }
+}
+fn jvec(v: &[f64]) -> String { format!("[{}]", v.iter().map(|x| jnum(*x)).collect::<Vec<_>>().join(", ")) }
+fn jmat(m: &[Vec<f64>]) -> String { format!("[{}]", m.iter().map(|r| jvec(r)).collect::<Vec<_>>().join(", ")) }
+
 // ---------------------------------------------------------------------------------------------
 // Coq terms
 // ---------------------------------------------------------------------------------------------
 const K_ENET: u64 = 0;
 const K_MTL: u64 = 1;
 const K_OLS: u64 = 2;
+const K_ENET32: u64 = 3; // elastic net at f32 (shipped to Coq as kind 0 with flag bit 3)
 
 fn case_term(id: u64, kind: u64, replay: bool, fixed_point: bool, d: &Data, h: &Hp, f: &FitOut, q: &[Vec<f64>]) -> String {
-    let flags = (replay as u64) | ((d.col_contig() as u64) << 1) | ((fixed_point as u64) << 2);
+    let f32run = kind == K_ENET32;
+    let kind = if f32run { K_ENET } else { kind };
+    let flags = (replay as u64) | ((d.col_contig() as u64) << 1) | ((fixed_point as u64) << 2) | ((f32run as u64) << 3);
+    // hyper-parameters as the f32 values the estimator sees
+    let hh = if f32run { Hp { pen: h.pen as f32 as f64, l1r: h.l1r as f32 as f64, tol: h.tol as f32 as f64, ..h.clone() } } else { h.clone() };
+    let h = &hh;
     format!(
         "{{| c_id := {}; c_kind := {}; c_flags := {}; c_X := {}; c_Y := {}; c_icpt := {}; c_pen := {}; c_l1r := {}; c_tol := {}; c_maxit := {}; c_W := {}; c_b := {}; c_gap := {}; c_steps := {}; c_Q := {}; c_pred := {} |}}",
         cn(id), cn(kind), cn(flags), cmat64(&d.x), cmat64(&d.y), cbool(h.icpt), sf64(h.pen), sf64(h.l1r), sf64(h.tol), cn(h.maxit as u64),
@@ -303,7 +340,7 @@ fn objective_n(d: &Data, h: &Hp, f: &FitOut) -> f64 {
 
 /// calibration aid (VERIF_C11_CALIB=1): first-order residuals of the returned point in units of the
 /// two candidate tolerance scales, printed to stderr
-fn calib(kind: u64, d: &Data, h: &Hp, f: &FitOut, converged: bool, stream: &str, id: u64) {
+fn calib(kind: u64, d: &Data, h: &Hp, f: &FitOut, converged: bool, stream: &str, id: u64) -> (f64, f64) {
     let (n, p, t) = (d.n(), d.p(), d.t());
     let l1 = h.l1r * h.pen * n as f64;
     let l2 = (1.0 - h.l1r) * h.pen * n as f64;
@@ -333,7 +370,10 @@ fn calib(kind: u64, d: &Data, h: &Hp, f: &FitOut, converged: bool, stream: &str,
         worst_tol = worst_tol.max(res * res / (h.tol * lj * s).max(1e-300));
         worst_floor = worst_floor.max(res / (x1 * fs).max(1e-300));
     }
-    eprintln!("CALIB id={} kind={} stream={} conv={} tol={:e} pen={:e} l1r={} steps={} fam={} ratio_tol={:e} ratio_floor={:e}", id, kind, stream, converged, h.tol, h.pen, h.l1r, f.steps, d.fam, worst_tol, worst_floor);
+    if std::env::var("VERIF_C11_CALIB").is_ok() {
+        eprintln!("CALIB id={} kind={} stream={} conv={} tol={:e} pen={:e} l1r={} steps={} fam={} ratio_tol={:e} ratio_floor={:e}", id, kind, stream, converged, h.tol, h.pen, h.l1r, f.steps, d.fam, worst_tol, worst_floor);
+    }
+    (worst_tol, worst_floor)
 }
 
 struct Ctx { out: Out, id: u64, replay_cap: u32 }
@@ -341,7 +381,7 @@ struct Ctx { out: Out, id: u64, replay_cap: u32 }
 impl Ctx {
     fn tags(&self, kind: u64, d: &Data, h: &Hp, extra: &[&str]) -> Vec<String> {
         let mut t: Vec<String> = vec![
-            match kind { K_ENET => "kind_enet", K_MTL => "kind_mtl", _ => "kind_ols" }.into(),
+            match kind { K_ENET => "kind_enet", K_ENET32 => "kind_enet", K_MTL => "kind_mtl", _ => "kind_ols" }.into(),
             if h.icpt { "fit_intercept" } else { "no_intercept" }.into(),
             if d.centred() { "centred" } else { "uncentred" }.into(),
             format!("fam_{}", d.fam),
@@ -351,12 +391,12 @@ impl Ctx {
     }
     fn desc(&self, kind: u64, d: &Data, h: &Hp, f: Option<&FitOut>, stream: &str) -> String {
         let fo = match f {
-            Some(f) => format!(", \"W\": {:?}, \"b\": {:?}, \"gap\": {:e}, \"n_steps\": {}", f.w, f.b, f.gap, f.steps),
+            Some(f) => format!(", \"W\": {}, \"b\": {}, \"gap\": {}, \"n_steps\": {}", jmat(&f.w), jvec(&f.b), jnum(f.gap), f.steps),
             None => String::new(),
         };
         format!(
-            "{{\"stream\": {}, \"kind\": {}, \"n\": {}, \"p\": {}, \"t\": {}, \"family\": {}, \"f_order\": {}, \"penalty\": {:e}, \"l1_ratio\": {}, \"with_intercept\": {}, \"tolerance\": {:e}, \"max_iterations\": {}, \"X\": {:?}, \"Y\": {:?}{}}}",
-            jstr(stream), kind, d.n(), d.p(), d.t(), d.fam, d.forder, h.pen, h.l1r, h.icpt, h.tol, h.maxit, d.x, d.y, fo
+            "{{\"stream\": {}, \"kind\": {}, \"n\": {}, \"p\": {}, \"t\": {}, \"family\": {}, \"f_order\": {}, \"penalty\": {}, \"l1_ratio\": {}, \"with_intercept\": {}, \"tolerance\": {}, \"max_iterations\": {}, \"X\": {}, \"Y\": {}{}}}",
+            jstr(stream), kind, d.n(), d.p(), d.t(), d.fam, d.forder, jnum(h.pen), jnum(h.l1r), h.icpt, jnum(h.tol), h.maxit, jmat(&d.x), jmat(&d.y), fo
         )
     }
     /// one elastic-net / multi-task fit -> one Coq case (or a Rust-side failure)
@@ -365,8 +405,8 @@ impl Ctx {
         self.id += 1;
         let qa = arr2(q, d.p());
         let qa2 = qa.clone();
-        let res = match kind { K_ENET => fit_enet(d, h, &qa), K_MTL => fit_mtl(d, h, &qa), _ => fit_ols_raw(d.xa(), d.ya1(), h.icpt, qa) };
-        let kname = match kind { K_ENET => "enet", K_MTL => "mtl", _ => "ols" };
+        let res = match kind { K_ENET => fit_enet(d, h, &qa), K_ENET32 => fit_enet32(d, h, &qa), K_MTL => fit_mtl(d, h, &qa), _ => fit_ols_raw(d.xa(), d.ya1(), h.icpt, qa) };
+        let kname = match kind { K_ENET => "enet", K_ENET32 => "enet_f32", K_MTL => "mtl", _ => "ols" };
         self.out.bump(&format!("stream_{}", stream));
         self.out.bump(&format!("kind_{}", kname));
         self.out.bump(&format!("family_{}", d.fam));
@@ -389,7 +429,8 @@ impl Ctx {
             }
             Ok(f) => {
                 let converged = kind == K_OLS || f.steps < h.maxit;
-                let replay = kind != K_OLS && f.steps <= self.replay_cap;
+                // binary32 arithmetic is emulated in Coq (about 60 us per operation): replay only short runs
+                let replay = if kind == K_ENET32 { (f.steps as usize) * d.n() * d.p() <= 4000 } else { kind != K_OLS && f.steps <= self.replay_cap };
                 // a run that used its whole budget may still sit on a fixed point of the sweep: two more sweeps
                 // leave every coefficient bit-identical (this is how ridge and penalty-0 fits end: their duality
                 // gap degenerates to the primal objective and never falls under the tolerance)
@@ -397,7 +438,7 @@ impl Ctx {
                 if kind != K_OLS && !converged && h.maxit >= 100 && all_finite(&f) {
                     let mut h2 = h.clone();
                     h2.maxit = h.maxit + 2;
-                    let again = if kind == K_ENET { fit_enet(d, &h2, &qa2) } else { fit_mtl(d, &h2, &qa2) };
+                    let again = if kind == K_ENET { fit_enet(d, &h2, &qa2) } else if kind == K_ENET32 { fit_enet32(d, &h2, &qa2) } else { fit_mtl(d, &h2, &qa2) };
                     if let Ok(g) = again {
                         fixed_point = g.w.iter().flatten().zip(f.w.iter().flatten()).all(|(a, b)| a.to_bits() == b.to_bits());
                     }
@@ -405,8 +446,16 @@ impl Ctx {
                 let mut extra: Vec<&str> = vec![];
                 extra.push(if converged { "converged" } else if fixed_point { "fixed_point" } else { "budget_exhausted" });
                 if kind != K_OLS && h.pen * h.l1r == 0.0 { extra.push("l1_zero"); }
-                if std::env::var("VERIF_C11_CALIB").is_ok() && all_finite(&f) && (converged || fixed_point) {
-                    calib(kind, d, h, &f, converged, stream, id);
+                if kind != K_OLS && kind != K_ENET32 && all_finite(&f) && (converged || fixed_point) {
+                    // slack actually consumed (approximate, binary64): squared first-order residual in units of
+                    // tol*L_j*|y|^2 (the checker allows kappa = 2) resp. residual in units of the rounding floor scale
+                    // (the checker allows 2^-36 = 1.5e-11)
+                    let (rt, rf) = calib(kind, d, h, &f, converged, stream, id);
+                    if converged && h.tol > 0.0 {
+                        self.out.bump(if rt <= 0.02 { "slack_tol_le_0.02" } else if rt <= 0.2 { "slack_tol_le_0.2" } else if rt <= 2.0 { "slack_tol_le_2" } else { "slack_tol_gt_2" });
+                    } else {
+                        self.out.bump(if rf <= 1e-15 { "slack_floor_le_1e-15" } else if rf <= 1e-13 { "slack_floor_le_1e-13" } else if rf <= 1.4e-11 { "slack_floor_le_1.4e-11" } else { "slack_floor_gt_1.4e-11" });
+                    }
                 }
                 if !all_finite(&f) { extra.push("non_finite_output"); }
                 if kind != K_OLS {
@@ -543,6 +592,25 @@ fn main() {
         let h = pick_hp(&mut r, fam, converge, thorough);
         let q = gen_queries(&mut r, &d);
         cx.emit_fit(K_MTL, &d, &h, &q, if converge { "mtl_converge" } else { "mtl_budget" }, true);
+    }
+
+    // ---- stream F: elastic net at f32 (same generic code, binary32 arithmetic replayed through SpecFloat) ----
+    let nf = if thorough { 260 } else { 36 };
+    for _ in 0..nf {
+        let mut r = rng.fork();
+        let fam = *r.pick(&[0u64, 1, 2, 3, 6]);
+        let p = 1 + r.below(3) as usize;
+        let mut d = gen_data(&mut r, fam, 1, 14, Some(p));
+        // every value must be an f32 value
+        for row in d.x.iter_mut() { for v in row.iter_mut() { *v = (*v as f32) as f64; } }
+        for row in d.y.iter_mut() { for v in row.iter_mut() { *v = (*v as f32) as f64; } }
+        let conv = r.chance(0.7);
+        let mut h = pick_hp(&mut r, fam, conv, thorough);
+        if h.maxit > 1000 { h.maxit = 1000; }
+        if h.tol != 0.0 && h.tol < 1e-6 { h.tol = 1e-6; }     // below the resolution of f32 nothing converges
+        let mut q = gen_queries(&mut r, &d);
+        for row in q.iter_mut() { for v in row.iter_mut() { *v = (*v as f32) as f64; } }
+        cx.emit_fit(K_ENET32, &d, &h, &q, "enet_f32", true);
     }
 
     // ---- stream D: ordinary least squares (full column rank), with the augmented-design differential ----
